@@ -141,7 +141,7 @@ const TEXTS: [&str; 23] = ["X", "", "{{b}}", "{{a}}", "Y{{ab}}Z", "}}", "{{", "a
     "X\n", "\n", " X ", "X\r\n", "\tX\t", "X\n\n",
     // a text that is another template's name: a placeholder nested in another pair of braces must not be completed by it
     "a", "b", "ab"];
-const PIECES: [&str; 23] = ["{{a}}", "{{ab}}", "{{b}}", "{{a b}}", "{{zz}}", "{{{a}}}", "{{", "}}", "{", "}", "x", " ", "{{a}}b}}", "{{}}", "{{x.y}}", "{{{{a}}}}", "\u{e9}", "\u{65e5}\u{672c}", "{{\u{e9}}}", "{{a}}}", "{{set}}}", "{{b}}}}}", "{{{{b}}}}"];
+const PIECES: [&str; 27] = ["{{a}}", "{{ab}}", "{{b}}", "{{a b}}", "{{zz}}", "{{{a}}}", "{{", "}}", "{", "}", "x", " ", "{{a}}b}}", "{{}}", "{{x.y}}", "{{{{a}}}}", "\u{e9}", "\u{65e5}\u{672c}", "{{\u{e9}}}", "{{a}}}", "{{set}}}", "{{b}}}}}", "{{{{b}}}}", "{{ a }}", "{{a }}", "{{  a}}", "{{ ab}}"];
 
 pub fn gen(tier: &str, seed: u64, out: &mut dyn FnMut(Value)) {
     let mut rng = Rng::new(seed);
